@@ -151,10 +151,10 @@ def Olf.getTokenLineLength (O : Olf) (startingWs : LineWhitespace) (prevDecision
   let multiline : Option Nat :=
     match tokenIndex.bind (fun index => O.formattedTokens[index]?) with
     | some t =>
-      match t.tok.kind with
+      match t.kind with
       | .tTextLiteral .tMultiLine | .tComment .cMultilineBlock =>
         -- multiline tokens necessarily have a break in them
-        match ((strLines t.tok.content).drop 1).getLast? with
+        match ((strLines t.content).drop 1).getLast? with
         | some lastLine => some lastLine.length
         | none => none
       | _ => none
@@ -583,11 +583,15 @@ def searchInit (cfg : Config) (lines : List Line) (ft : FT) : SearchState :=
 /-- `format_line` on top-level line `lineIdx` with the tokens as they are now (`ft`: counters and texts are read live,
     e.g. the lengths of the lines of multi-line tokens): the solution (`none` = no solution / iteration limit /
     asm-instruction line) and the state with the updated cache -/
-def searchSolve (st : SearchState) (ft : FT) (lineIdx : Nat) : Option Sol × SearchState :=
+def searchSolveV (st : SearchState) (view : List SVTok) (lineIdx : Nat) : Option Sol × SearchState :=
   let O : Olf :=
-    { cfg := st.cfg, reconSettings := st.cfg.settings, iterationMax := 20000, formattedTokens := ft.toArray,
+    { cfg := st.cfg, reconSettings := st.cfg.settings, iterationMax := 20000, formattedTokens := view.toArray,
       lines := st.lines, lineChildren := st.lineChildren, tokenTypes := st.tokenTypes, tokenLengths := st.tokenLengths }
   let (sol, cache) := O.formatLine st.childLineCache lineIdx
   (sol.map (·.toSol (st.lines.size + 1)), { st with childLineCache := cache })
+
+/-- the search reads the live tokens only through their view (type and text) -/
+def searchSolve (st : SearchState) (ft : FT) (lineIdx : Nat) : Option Sol × SearchState :=
+  searchSolveV st (ft.map FTok.sview) lineIdx
 
 end Pasfmt
